@@ -95,8 +95,8 @@ def run(res):
     res.coverage["rule"] = ("every history of length <=2 (thorough <=3) over 14 ops (4 flags, Default/DefaultFunc/Prefault/PrefaultFunc x valid/invalid argument, "
         "identity Overwrite, always-true Refine) plus random histories up to length 5, x 30 schema types (string, stringptr, int, int8, int64ptr, uint16, float64, float32, bool, "
         "slice, object, record, array, enum, literal, any, unknown, union, intersection, discriminated union, lazy, tuple, set, map, xor, struct, time, stringbool, email, never) x inputs {nil, typed nil pointer, valid, invalid}; "
-        "each applicable history additionally under chains of .Transform(f_i)/.Pipe(logging target_i) (every chain of length <=3 for histories of length <=1, every chain of length <=2 for length-2 histories, "
-        "two random chains per random history; thorough: every chain for every exhaustive history), observing result term and callback log. distinct = distinct op lines.")
+        "each applicable history additionally under chains of .Transform(f_i)/.Pipe(logging target_i) (every chain of length <=3 for histories of length <=1 (thorough <=2), every chain of length <=2 for the other exhaustive histories, "
+        "two random chains per random history), observing result term and callback log. distinct = distinct op lines.")
     res.assumptions += ["sentinel default/prefault values identify the source of a returned value", "lenient reading when both default kinds are set",
                         "a pipe target counts as a callback: the statement's 'without running checks or transforms' is read as 'no user callback runs on the default'",
                         "callback arguments compared up to numeric representation and nil pointer vs zero value"]
